@@ -55,7 +55,7 @@ def confirm(ctx, case, row):
         ctx.violations.get("hang:%s" % case["fn"], ctx.violations.get("unbounded_growth:%s" % case["fn"], {"count": 0}))["count"] += 1
         return
     try:
-        sc.exec_call_case(ctx, single, cpu_limit=CONFIRM_CPU if ctx.tier == 'thorough' else 12.0)
+        sc.exec_call_case(ctx, single, cpu_limit=CONFIRM_CPU if ctx.tier == 'thorough' else 8.0)
         ctx.count("slow_but_finished")
         return
     except WorkerDied as e:
